@@ -55,13 +55,13 @@ def is_sequence_type_restriction(st1: str, st2: str) -> bool:
     elif st2 in ('empty-sequence()', 'none') and \
             (st1 in ('empty-sequence()', 'none') or st1.endswith(('?', '*'))):
         return True
+    elif st2 in ('empty-sequence()', 'none'):
+        return False
 
     # check occurrences
     if st1[-1] not in '?+*':
-        if st2[-1] in '+*':
+        if st2[-1] in '?+*':
             return False
-        elif st2[-1] == '?':
-            st2 = st2[:-1]
 
     elif st1[-1] == '+':
         st1 = st1[:-1]
